@@ -121,6 +121,16 @@ Definition new_row (T : table) (m : nmodel) : res (list (sym * gval)) :=
                else g <- native_to_ovs (c_ty C) v ;; Ok (r ++ [(c_name C, g)])
            end) (t_cols T) [].
 
+(** Mapper.NewRow with explicit fields: exactly the named columns, default values included *)
+Definition new_row_fields (T : table) (m : nmodel) (fs : list sym) : res (list (sym * gval)) :=
+  rfold (fun r C =>
+           match nm_get m (c_name C) with
+           | None => Ok r
+           | Some v =>
+               if negb (existsb (N.eqb (c_name C)) fs) then Ok r
+               else g <- native_to_ovs (c_ty C) v ;; Ok (r ++ [(c_name C, g)])
+           end) (t_cols T) [].
+
 (** Mapper.GetRowData: columns missing from the row leave the field untouched *)
 Definition get_row_data (T : table) (r : list (sym * gval)) (m : nmodel) : res nmodel :=
   rfold (fun m C =>
